@@ -171,11 +171,13 @@ def _select_writers(rconds, ritems, wpaths, owned_flags):
     return out
 
 
-def rule_a(ctx):
+def rule_a(ctx, only=None):
     rep = ctx.report
     fc = frame_classes(ctx)
     rep.require('C02.a', 'registered frame classes', len(fc), 14)
     for tname, T in sorted(fc.items(), key=lambda kv: kv[1].name):
+        if only is not None and T.name not in only:
+            continue
         for backend in BACKENDS:
             try:
                 rps = reader_paths(ctx, T, backend)
